@@ -924,3 +924,216 @@ Proof.
   split; [split; [cbn; lia|split; [reflexivity|]]; intros [|n'] H; cbn; lia|].
   vm_compute. congruence.
 Qed.
+
+(* ------------------------------------------------------------------ put: index modes *)
+Ltac bcases :=
+  repeat match goal with
+  | |- context [Z.ltb ?a ?b] => destruct (Z.ltb a b) eqn:?
+  | |- context [Z.gtb ?a ?b] => destruct (Z.gtb a b) eqn:?
+  | |- context [Z.leb ?a ?b] => destruct (Z.leb a b) eqn:?
+  | |- context [Z.geb ?a ?b] => destruct (Z.geb a b) eqn:?
+  | |- context [Z.eqb ?a ?b] => destruct (Z.eqb a b) eqn:?
+  end; cbn [orb andb]; try reflexivity; try lia; try (f_equal; lia); try (f_equal; f_equal; lia).
+
+Section PutIx.
+  Local Ltac Zify.zify_post_hook ::= Z.to_euclidean_division_equations.
+
+  (* negative indices count from the end; what is still outside [0,count) is handled by the mode *)
+  Definition from_end (count ix : Z) : Z := if ix <? 0 then ix + count else ix.
+
+  Theorem put_ix_raise count ix : 0 < count ->
+    put_ix count PRaise ix =
+      if (- count <=? ix) && (ix <? count) then Some (from_end count ix) else None.
+  Proof.
+    intros Hc. unfold put_ix, from_end.
+    destruct (ix <? 0) eqn:E1; cbn zeta;
+      destruct ((_ <? 0) || (_ >=? count)) eqn:E2; destruct ((- count <=? ix) && (ix <? count)) eqn:E3;
+      try reflexivity; try lia; f_equal; lia.
+  Qed.
+
+  Theorem put_ix_wrap count ix : 0 < count -> put_ix count PWrap ix = Some (ix mod count).
+  Proof.
+    intros Hc. unfold put_ix.
+    destruct (ix <? 0) eqn:E1; cbn zeta; destruct ((_ <? 0) || (_ >=? count)) eqn:E2; f_equal.
+    - replace (count - Z.abs ix) with (ix + 1 * count) by lia. apply Z.mod_add. lia.
+    - replace (count - Z.abs ix) with (ix + 1 * count) by lia. rewrite <- (Z.mod_add ix 1 count) by lia.
+      symmetry. apply Z.mod_small. lia.
+    - symmetry. apply Z.mod_small. lia.
+  Qed.
+
+  Theorem put_ix_clip count ix : 0 < count ->
+    put_ix count PClip ix = Some (Z.max 0 (Z.min (count - 1) (from_end count ix))).
+  Proof.
+    intros Hc. unfold put_ix, from_end.
+    destruct (ix <? 0) eqn:E1; cbn zeta; destruct ((_ <? 0) || (_ >=? count)) eqn:E2; f_equal;
+      repeat match goal with |- context [if ?b then _ else _] => destruct b eqn:? end; lia.
+  Qed.
+End PutIx.
+
+(* writing flat position ix = i*c + j changes exactly element (i, j) *)
+Theorem set_flat_spec r c a ix x i j : wfx r c a -> 0 <= ix < Z.of_nat (r * c) ->
+  (i < r)%nat -> (j < c)%nat ->
+  el (set_flat a ix x) i j = if Z.of_nat (i * c + j) =? ix then trunc (bits a) x else el a i j.
+Proof.
+  intros W Hix Hi Hj. pose proof W as [_ [Hr Hc]]. unfold set_flat.
+  rewrite (wfx_rows r c a W), (wfx_cols r c a W). unfold el at 1. cbn [dat]. rewrite get_mk by assumption.
+  assert (Hc' : 0 < Z.of_nat c) by lia.
+  pose proof (Z.div_mod ix (Z.of_nat c) ltac:(lia)) as DM.
+  pose proof (Z.mod_pos_bound ix (Z.of_nat c) Hc') as MB.
+  assert (0 <= ix / Z.of_nat c) by (apply Z.div_pos; lia).
+  destruct (Z.of_nat (i * c + j) =? ix) eqn:E.
+  - assert (E' : ix = Z.of_nat i * Z.of_nat c + Z.of_nat j) by lia.
+    assert (Hq : ix / Z.of_nat c = Z.of_nat i).
+    { rewrite E'. rewrite Z.div_add_l by lia. rewrite Z.div_small by lia. lia. }
+    assert (Hm : ix mod Z.of_nat c = Z.of_nat j).
+    { rewrite E'. rewrite Z.add_comm, Z.mod_add by lia. apply Z.mod_small. lia. }
+    rewrite Hq, Hm, !Nat2Z.id, !Nat.eqb_refl. reflexivity.
+  - destruct (Nat.eqb i (Z.to_nat (ix / Z.of_nat c))) eqn:E1;
+      destruct (Nat.eqb j (Z.to_nat (ix mod Z.of_nat c))) eqn:E2; try reflexivity.
+    apply Nat.eqb_eq in E1, E2. exfalso. apply Z.eqb_neq in E. apply E.
+    rewrite Nat2Z.inj_add, Nat2Z.inj_mul, E1, E2, !Z2Nat.id by lia. lia.
+Qed.
+
+(* ------------------------------------------------------------------ indexing *)
+(* Python sequence semantics of an int index *)
+Theorem key_get_int n z : 0 < n ->
+  key_get n (KInt z) = if (- n <=? z) && (z <? n) then Some (from_end n z, from_end n z + 1) else None.
+Proof.
+  intros Hn. unfold key_get, neg_norm, chk, from_end. cbn zeta. bcases.
+Qed.
+
+(* slice bounds within [-n, n] are normalised like Python's; None means 0 / n *)
+Definition py_bound (n : Z) (dflt : Z) (o : option Z) : Z :=
+  match o with None => dflt | Some z => from_end n z end.
+Theorem key_get_slice n s e : 0 < n ->
+  (forall z, s = Some z -> - n <= z <= n) -> (forall z, e = Some z -> - n <= z <= n) ->
+  key_get n (KSl s e) = Some (py_bound n 0 s, py_bound n n e).
+Proof.
+  intros Hn Hs He. unfold key_get, sl_bounds, chk, py_bound, neg_norm, from_end.
+  destruct s as [s|]; destruct e as [e|];
+    try (specialize (Hs s eq_refl)); try (specialize (He e eq_refl)); bcases.
+Qed.
+
+(* the selected block: element (i, j) of the result is element (rs+i, cs+j) *)
+Theorem getitem_block r c a kr kc rs re cs ce i j : wfx r c a -> mrange a -> bits a <= maxb a ->
+  key_get (Z.of_nat r) kr = Some (rs, re) -> key_get (Z.of_nat c) kc = Some (cs, ce) ->
+  0 <= rs < re -> 0 <= cs < ce -> (Z.of_nat i < re - rs) -> (Z.of_nat j < ce - cs) ->
+  exists res, mgetitem a kr kc = Some res /\ bits res = bits a /\
+              el res i j = el a (Z.to_nat rs + i) (Z.to_nat cs + j).
+Proof.
+  intros W R Hm Kr Kc Hrs Hcs Hi Hj. unfold mgetitem.
+  rewrite (wfx_rows r c a W), (wfx_cols r c a W), Kr, Kc.
+  replace ((re - rs <=? 0) || (ce - cs <=? 0)) with false by lia.
+  destruct ((re - rs =? 1) && (ce - cs =? 1)) eqn:E.
+  - eexists. split; [reflexivity|]. split; [reflexivity|].
+    assert (i = 0%nat) by lia. assert (j = 0%nat) by lia. subst. rewrite !Nat.add_0_r. reflexivity.
+  - eexists. split; [reflexivity|]. split; [cbn [mnew bits]; apply capb_id; exact Hm|].
+    rewrite el_mnew by lia. rewrite capb_id by exact Hm. rewrite trunc_id by apply R.
+    rewrite (Nat.add_comm i), (Nat.add_comm j). reflexivity.
+Qed.
+
+(* __setitem__ builds slice(i, i+1) before normalising, so the int index -1 in a tuple key gives the
+   empty slice (n-1, 0) and the assignment raises: signature 'setitem:neg1-tuple-index-raises' *)
+Theorem setitem_neg1_refuted :
+  exists a x, wfx 2 2 a /\ key_get 2 (KInt (-1)) = Some (1, 2) /\ msetitem_s a (KInt (-1)) (KInt 0) x = None.
+Proof.
+  exists (MkMx 4 64 [[1; 2]; [3; 4]]), 9. split; [repeat split; cbn; try lia; repeat constructor|].
+  split; reflexivity.
+Qed.
+
+(* put with a row-vector Matrix v compares the value index with count of SELF instead of v.columns:
+   signature 'put:matrix-v-bound-uses-self-count' *)
+Theorem put_matrix_value_refuted :
+  exists a v ind, mput_list a ind (nth 0 (dat v) []) PRaise <> mput_mat a ind v PRaise.
+Proof.
+  exists (MkMx 4 64 [[0]]), (MkMx 4 64 [[1; 2; 3]]), [0; 0]. vm_compute. congruence.
+Qed.
+
+(* dot(1x1 Matrix, Matrix) raises although dot(Matrix, 1x1 Matrix) is the scalar product:
+   signature 'dot:1x1-first-raises' *)
+Theorem dot_1x1_first_refuted :
+  exists a b, mdot a b = None /\ mdot b a <> None.
+Proof.
+  exists (MkMx 3 64 [[2]]), (MkMx 4 64 [[1; 2]; [3; 4]]). vm_compute. split; [reflexivity|congruence].
+Qed.
+
+(* ------------------------------------------------------------------ stacking *)
+Lemma map_seq_offset {A} (f : nat -> A) n : forall k, map f (seq k n) = map (fun x => f (k + x)%nat) (seq 0 n).
+Proof.
+  induction n as [|n IH]; intros k; cbn [seq map]; [reflexivity|]. f_equal; [f_equal; lia|].
+  rewrite (IH (S k)), <- seq_shift, map_map. apply map_ext. intros x. f_equal. lia.
+Qed.
+
+Lemma nth_mk_row r c f i : (i < r)%nat -> nth i (mk r c f) [] = map (fun j => f i j) (seq 0 c).
+Proof. intros Hi. unfold mk. apply (nth_map_seq (fun i => map (fun j => f i j) (seq 0 c))). exact Hi. Qed.
+
+Lemma map_hget ms i :
+  map (hget ms i) (seq 0 (natsum (map cols_of ms))) = concat (map (fun m => row m i) ms).
+Proof.
+  induction ms as [|m rest IH]; cbn [map natsum fold_right concat seq]; [reflexivity|].
+  fold (natsum (map cols_of rest)). rewrite seq_app, map_app. f_equal.
+  - unfold row. apply map_ext_in. intros j Hj. apply in_seq in Hj. cbn [hget].
+    replace (j <? cols_of m)%nat with true by (symmetry; apply Nat.ltb_lt; lia). reflexivity.
+  - rewrite map_seq_offset, <- IH. apply map_ext. intros x. cbn [hget Nat.add].
+    replace (cols_of m + x <? cols_of m)%nat with false by (symmetry; apply Nat.ltb_ge; lia).
+    f_equal. lia.
+Qed.
+
+(* hstack: every row of the result is the concatenation of the operands' rows (zero-extended to
+   the widest element width) *)
+Theorem hstack_rows m1 m2 ms i : let all := m1 :: m2 :: ms in
+  forallb (fun x => Nat.eqb (rows_of x) (rows_of m1)) all = true -> (i < rows_of m1)%nat ->
+  exists res, mhstack all = Some res /\
+    bits res = capb (zmaxl (map bits all)) (zmaxl (map maxb all)) /\
+    nth i (dat res) [] = map (trunc (bits res)) (concat (map (fun m => row m i) all)).
+Proof.
+  intros all Hall Hi. subst all. unfold mhstack. cbv beta iota. rewrite Hall. eexists. split; [reflexivity|].
+  split; [reflexivity|]. cbn [mnew dat bits]. rewrite nth_mk_row by exact Hi.
+  rewrite <- map_hget, map_map. reflexivity.
+Qed.
+
+Lemma map_vget ms c nb :
+  map (fun i => map (fun j => trunc nb (vget ms i j)) (seq 0 c)) (seq 0 (natsum (map rows_of ms)))
+  = concat (map (fun m => map (fun i => map (fun j => trunc nb (el m i j)) (seq 0 c)) (seq 0 (rows_of m))) ms).
+Proof.
+  induction ms as [|m rest IH]; cbn [map natsum fold_right concat seq]; [reflexivity|].
+  fold (natsum (map rows_of rest)). rewrite seq_app, map_app. f_equal.
+  - apply map_ext_in. intros i Hi. apply in_seq in Hi. apply map_ext. intros j. cbn [vget].
+    replace (i <? rows_of m)%nat with true by (symmetry; apply Nat.ltb_lt; lia). reflexivity.
+  - rewrite map_seq_offset, <- IH. apply map_ext. intros x. apply map_ext. intros j. cbn [vget Nat.add].
+    replace (rows_of m + x <? rows_of m)%nat with false by (symmetry; apply Nat.ltb_ge; lia).
+    do 2 f_equal. lia.
+Qed.
+
+Lemma mk_el_rows c a nb : wfm (rows_of a) c (dat a) ->
+  map (fun i => map (fun j => trunc nb (el a i j)) (seq 0 c)) (seq 0 (rows_of a)) = map (map (trunc nb)) (dat a).
+Proof.
+  intros W. change (map (fun i => map (fun j => trunc nb (el a i j)) (seq 0 c)) (seq 0 (rows_of a)))
+    with (mk (rows_of a) c (fun i j => trunc nb (el a i j))).
+  apply (mat_ext (rows_of a) c); [apply wfm_mk| |].
+  - destruct W as [L F]. split; [rewrite map_length; exact L|]. apply Forall_forall. intros row Hin.
+    apply in_map_iff in Hin. destruct Hin as [row' [<- Hin]]. rewrite map_length.
+    rewrite Forall_forall in F. apply F, Hin.
+  - intros i j Hi Hj. rewrite get_mk by assumption. unfold get.
+    rewrite nth_indep with (d' := map (trunc nb) []) by (rewrite map_length; exact Hi).
+    rewrite map_nth.
+    change (nth j (map (trunc nb) (nth i (dat a) [])) 0) with (nth j (map (trunc nb) (nth i (dat a) [])) (trunc nb 0)).
+    rewrite map_nth. reflexivity.
+Qed.
+
+(* vstack: the rows of the result are the operands' rows one after another *)
+Theorem vstack_rows m1 m2 ms : let all := m1 :: m2 :: ms in
+  forallb (fun x => Nat.eqb (cols_of x) (cols_of m1)) all = true ->
+  (forall m, In m all -> wfm (rows_of m) (cols_of m1) (dat m)) ->
+  exists res, mvstack all = Some res /\
+    bits res = capb (zmaxl (map bits all)) (zmaxl (map maxb all)) /\
+    dat res = map (map (trunc (bits res))) (concat (map dat all)).
+Proof.
+  intros all Hall W. subst all. unfold mvstack. cbv beta iota. rewrite Hall. eexists. split; [reflexivity|].
+  split; [reflexivity|]. cbn [mnew dat bits]. unfold mk. rewrite map_vget.
+  set (nb := capb _ _). clearbody nb. clear Hall. revert W. generalize (m1 :: m2 :: ms) as all.
+  induction all as [|m rest IH]; intros W; [reflexivity|].
+  cbn [map concat]. rewrite map_app. f_equal.
+  - apply mk_el_rows. apply W. left. reflexivity.
+  - apply IH. intros m' Hin. apply W. right. exact Hin.
+Qed.
